@@ -2,4 +2,4 @@
 From KDB Require Import PropDefs PropFn PropCheck PropLink PropFragment.
 Require Import ExtrOcamlBasic.
 Extraction Language OCaml.
-Extraction "propmodel.ml" step run world0 fn_std values check_c02 check_c06_after_evalall check_links pinv_b okxb footprint in_c02_fragment in_c06_fragment act_opb.
+Extraction "propmodel.ml" step run world0 fn_std values check_c02 check_c06_after_evalall check_links pinv_b okxb footprint in_c02_fragment in_c06_fragment act2_synb.
